@@ -14,6 +14,7 @@ import (
 	"runtime"
 	"runtime/debug"
 	"sort"
+	"strings"
 
 	"github.com/gookit/rux"
 )
@@ -40,6 +41,7 @@ type poolObs struct {
 	Params  string
 	Router  string
 	Query   string
+	Allowed string // the list of allowed methods a 405 request finds in its context
 	App     string // the application's own handler slice, once given to SetHandlers: "own" as long as nobody else wrote into it
 	Errors  int
 	Aborted bool
@@ -119,6 +121,11 @@ func newPoolRouter(hook, caching bool) *poolRouter {
 		if c.Router() != pr.r && !(pr.cur.Kind == "foreign" && c.Router() == nil) { // (a context the caller built has no router: outside C10)
 			o.Router = "foreign"
 		}
+		if al, ok := c.SafeGet(rux.CTXAllowedMethods).([]string); ok {
+			cp := append([]string{}, al...)
+			sort.Strings(cp)
+			o.Allowed = strings.Join(cp, ",")
+		}
 		o.App = "own"
 		for _, h := range pr.appChain[:cap(pr.appChain)][1:] {
 			if h != nil {
@@ -157,6 +164,11 @@ func newPoolRouter(hook, caching bool) *poolRouter {
 				}
 			case "req":
 				c.Req = c.Req.Clone(c.Req.Context())
+			case "allowed":
+				// the handler edits the list of allowed methods it finds in its context (its request's data)
+				if al, ok := c.SafeGet(rux.CTXAllowedMethods).([]string); ok && len(al) > 0 {
+					al[0] = "EDITED"
+				}
 			case "sethandlers":
 				c.SetHandlers(pr.appChain) // the application swaps in a chain of its own (a long-lived slice with spare capacity)
 			case "renderfail":
@@ -249,7 +261,7 @@ func poolReplay(s *Summary, raw json.RawMessage) {
 	// histories that end in a request for a dynamic route run on a CACHING router: what an earlier handler did to the
 	// parameters it was given must not be what the route cache hands to the next request of that URL
 	lastKind := c.H[len(c.H)-1].Kind
-	caching := lastKind == "dynamic" || lastKind == "optional"
+	caching := lastKind == "dynamic" || lastKind == "optional" || lastKind == "notallowed"
 	pr := newPoolRouter(hook, caching)
 	var obs *poolObs
 	var code int
@@ -264,7 +276,7 @@ func poolReplay(s *Summary, raw json.RawMessage) {
 	// histories (one per model state and step) need not contain them in front of every kind of request. For the short
 	// histories each of them is therefore added to the first request and the last request is compared with the fresh twin.
 	if len(c.H) == 2 {
-		for _, latent := range []string{"renderfail", "sethandlers", "query", "delegate", "params"} {
+		for _, latent := range []string{"renderfail", "sethandlers", "query", "delegate", "params", "allowed"} {
 			first := c.H[0]
 			first.Muts = append(append([]string{}, first.Muts...), latent)
 			pv := newPoolRouter(hook, caching)
@@ -295,6 +307,7 @@ func poolReplay(s *Summary, raw json.RawMessage) {
 	}
 	sort.Strings(want.Data)
 	want.DataNil = obs.DataNil
+	want.Allowed = obs.Allowed // (judged against the fresh twin below)
 	if !reflect.DeepEqual(*obs, want) {
 		s.mismatch(desc(fmt.Sprintf("the first handler of the last request observed %+v, pristine is %+v", *obs, want)), c)
 		return
